@@ -34,6 +34,9 @@ def setup(ctx):
 
 
 def case(ctx, rnd, i):
+    if i == 0:
+        stepwork.repo_tests_workload(ctx, ID)
+        return
     if i % 2 == 1:
         from . import opwork
 
